@@ -86,6 +86,38 @@ def s2(x: FLOAT[4]) -> FLOAT[4]:
     return gamma + delta
 '''
 
+# the same computation written for opset 11 and for opset 18: ops whose input/attribute split, literal typing or
+# availability differs between the two versions (ReduceSum/Squeeze/Unsqueeze axes, Clip bounds, >= needs
+# GreaterOrEqual from opset 12 on) - a per-operator memo kept without the opset version shows as a history effect
+_HDR11 = ("import numpy as np\nfrom onnxscript import opset11 as op\n"
+          "from onnxscript.onnx_types import FLOAT, INT64, BOOL\n")
+SX11_SRC = _HDR11 + '''
+def sx11(x: FLOAT[1, 4], n: INT64) -> FLOAT[4]:
+    s = op.Squeeze(x, axes=[0])
+    t = op.ReduceSum(s, axes=[0], keepdims=0)
+    u = op.Unsqueeze(op.Clip(s, 0.0, 6.0), axes=[0])
+    acc = op.Squeeze(u, axes=[0])
+    for i in range(n):
+        if op.Less(t, 3.0):
+            acc = acc + 1.0
+        else:
+            acc = acc * 2.0
+    return acc
+'''
+SX18_SRC = _HDR18 + '''
+def sx18(x: FLOAT[1, 4], n: INT64) -> FLOAT[4]:
+    s = op.Squeeze(x, [0])
+    t = op.ReduceSum(s, [0], keepdims=0)
+    u = op.Unsqueeze(op.Clip(s, 0.0, 6.0), [0])
+    acc = op.Squeeze(u, [0])
+    for i in range(n):
+        if t >= 3.0:
+            acc = acc * 2.0
+        else:
+            acc = acc + 1.0
+    return acc
+'''
+
 # other opset (15), own domain, three variables leaving the If (one of them a plain copy), three loop-carried
 S3_SRC = _HDR15 + '''
 def s3(x: FLOAT[4], n: INT64) -> FLOAT[4]:
@@ -205,6 +237,8 @@ def _fresh_module(modname, src):
 # ---------------------------------------------------------------------------------------------------------
 
 DEC = onnxscript.script(default_opset=_op18)                       # one decorator for S1, S2, persist, g_*
+from onnxscript import opset11 as _op11  # noqa: E402
+DEC11 = onnxscript.script(default_opset=_op11)                     # one decorator for the opset-11 script
 DEC3 = onnxscript.script(_values.Opset("c14.dom", 1))              # one decorator for S3 (own domain)
 FOLD = _constant_folding.FoldConstantsPass(shape_inference=True, input_size_limit=1024,
                                            output_size_limit=1024 * 1024)
@@ -551,6 +585,14 @@ def ev_tr_s3():
     return _translate("c14_s3", S3_SRC, "s3", DEC3)
 
 
+def ev_tr_x11():
+    return _translate("c14_sx11", SX11_SRC, "sx11", DEC11)
+
+
+def ev_tr_x18():
+    return _translate("c14_sx18", SX18_SRC, "sx18", DEC)
+
+
 def _optimize(m):
     return {"model": _ser_plain(onnxscript.optimizer.optimize(m))}
 
@@ -799,7 +841,7 @@ def ev_use_g():
 
 
 EVENTS = {
-    "tr_s1": ev_tr_s1, "tr_s2": ev_tr_s2, "tr_s3": ev_tr_s3,
+    "tr_s1": ev_tr_s1, "tr_s2": ev_tr_s2, "tr_s3": ev_tr_s3, "tr_x11": ev_tr_x11, "tr_x18": ev_tr_x18,
     "opt_reshape2": ev_opt_reshape2, "opt_reshape_az": ev_opt_reshape_az, "opt_fold_o11": ev_opt_fold_o11, "opt_fold_o18": ev_opt_fold_o18, "opt_padconv": ev_opt_padconv, "opt_matreshape": ev_opt_matreshape,
     "opt_nearmiss": ev_opt_nearmiss, "opt_mixed": ev_opt_mixed,
     "rw_checkraises": ev_rw_checkraises, "rw_patternraises": ev_rw_patternraises, "rw_alt": ev_rw_alt,
